@@ -14,9 +14,11 @@ func rdRuns(prefix string) func(tier string) []gosym.RunConfig {
 			kWrap = 2 // the rule check over three wrapping steps takes minutes: thorough tier
 		}
 		if tier == "thorough" {
-			kPlain, kWrap, classes = 4, 3, []int64{1, 2, 3, 4, 5}
-			if prefix == "C04:" {
-				kWrap = 4
+			// four calls were measured: 400 s per run and solver time-outs (window classes above
+			// one word), so the thorough tier deepens the window sizes and the maxima instead
+			kPlain, kWrap, classes = 3, 3, []int64{1, 2, 3, 4, 5}
+			if prefix == "C05:" {
+				kWrap = 2
 			}
 		}
 		for _, wrap := range []int64{0, 1} {
@@ -63,7 +65,7 @@ func init() {
 	}
 	bounds := func(tier string) []string {
 		if tier == "thorough" {
-			return []string{"window size 0..320 (1..5 mask words, one run per word count)", "maximum: any uint64 (plain); wrapping: the listed maxima (2^n-1 and small values), one run each", "histories of 4 Check calls with any numbers, accept invoked for any subset (C05 on the wrapping detector: 3 calls)"}
+			return []string{"window size 0..320 (1..5 mask words, one run per word count)", "maximum: any uint64 (plain); wrapping: the listed maxima (2^n-1 and small values), one run each", "histories of 3 Check calls with any numbers, accept invoked for any subset (C05 on the wrapping detector: 2 calls)"}
 		}
 		return []string{"window size 0..128 (1..2 mask words)", "maximum: any uint64 (plain); wrapping: the listed maxima (2^n-1 and small values), one run each", "histories of 3 Check calls with any numbers, accept invoked for any subset (C05 on the wrapping detector: 2 calls)"}
 	}
